@@ -473,3 +473,69 @@ def smax(vs):
     for v in vs[1:]:
         m = v if (v > m) else m
     return m
+
+
+# ---------------------------------------------------------------------------------------
+# C04: reference model of an F-ordered growable array
+
+
+class ArrayModel:
+    def __init__(self, cells):
+        self.a = cells.copy()
+
+    @property
+    def shape(self):
+        return self.a.shape
+
+    def grow(self, need):
+        """need: minimal extents (may have more entries than the current order)"""
+        cur = list(self.a.shape) + [1] * (len(need) - self.a.ndim)
+        new = [max(c, n) for c, n in zip(cur, need)]
+        if tuple(new) != self.a.shape:
+            b = zeros(new)
+            for idx in np.ndindex(*self.a.shape):
+                b[tuple(idx) + (0,) * (len(new) - self.a.ndim)] = self.a[idx]
+            self.a = b
+
+    def norm_sub(self, sub):
+        """full subscript with python-style negative entries (relative to the current extent)"""
+        out = []
+        for k, s in enumerate(sub):
+            s = int(s)
+            if s < 0:
+                s += self.a.shape[k] if k < self.a.ndim else 1
+            out.append(s)
+        return tuple(out)
+
+    def set(self, sub, v):
+        sub = self.norm_sub(sub)
+        self.grow([s + 1 for s in sub])
+        self.a[sub] = v
+
+    def get(self, sub):
+        return self.a[self.norm_sub(sub)]
+
+    def lin(self, k):
+        size = int(np.prod(self.a.shape))
+        k = int(k)
+        if k < 0:
+            k += size
+        return from_lin(k, self.a.shape)
+
+    def region_subs(self, key):
+        """key: tuple of int / slice / list per mode -> (list of index lists, kept-mode flags); grows nothing"""
+        lists, keep = [], []
+        for k, r in enumerate(key):
+            ext = self.a.shape[k] if k < self.a.ndim else 1
+            if isinstance(r, slice):
+                stop = r.stop
+                lists.append(list(range(max(ext, stop if stop is not None else 0)))[r])
+                keep.append(True)
+            elif isinstance(r, (list, tuple, np.ndarray)):
+                lists.append([int(x) for x in r])
+                keep.append(True)
+            else:
+                r = int(r)
+                lists.append([r + ext if r < 0 else r])
+                keep.append(False)
+        return lists, keep
